@@ -133,7 +133,8 @@ void *__wrap_realloc(void *old, size_t sz) {
     struct ent *e = old ? tab_find(old) : 0;
     cur_ra = (uintptr_t)__builtin_return_address(0) - (uintptr_t)&__executable_start;
     if(old && !e) { bad_free++; return 0; }
-    if(refuse(sz, __builtin_return_address(0))) return 0;
+    /* budget mode counts the net growth: the block being resized is already part of the live bytes */
+    if(refuse(e ? (sz > e->sz ? sz - e->sz : 0) : sz, __builtin_return_address(0))) return 0;
     if(!old) {
         void *p = __real_malloc(sz);
         if(p) { tab_add(p, sz); if(fill_on) memset(p, fill_byte, sz); }
